@@ -76,7 +76,9 @@ def run_case(job):
             return {"viol": viol, "n": 1, "keys": [], "traces": 1}
         meas = 15.0 if dim == 2 else 30.0
         got = mesh.area if dim == 2 else mesh.volume
-        if abs(got - meas) > 1e-11 * meas:
+        # the measure is a sum of products of coordinate DIFFERENCES: far from the origin each difference loses digits in proportion
+        # to |x| / h, so the comparison is relative to the size of the coordinates (1e-11 near the origin, 1e-10 at |x| = 1e5)
+        if abs(got - meas) > (1e-11 + 1e-15 * np.abs(X).max()) * meas:
             viol.append((f"measure/{key}", f"{key}: measure {got} after the motions, exact {meas}", {"frame": frame, "elem": elem}))
         inplane = abs(A[2, 2] - 1) < 1e-15 and abs(b[2]) < 1e-15 and np.abs(A[2, :2]).max() < 1e-15 and np.abs(A[:2, 2]).max() < 1e-15
         if dim == 3 or inplane:
